@@ -333,9 +333,11 @@ func TestWorker(t *testing.T) {
 		stalled := 0 // consecutive one-second looks without scheduling progress
 		stallCPU := int64(-1)
 		for {
+			t0 := time.Now()
 			time.Sleep(time.Second)
+			late := time.Since(t0) > 1500*time.Millisecond // this goroutine was itself held up: the process is being starved or was paused
 			p := workerProgress.Load()
-			if p != last || !active.Load() {
+			if p != last || !active.Load() || late {
 				last, stalled, stallCPU = p, 0, -1
 				continue
 			}
